@@ -44,6 +44,7 @@ import (
 	"github.com/gauss-project/aurorafs/pkg/pinning"
 	resolverMock "github.com/gauss-project/aurorafs/pkg/resolver/mock"
 	"github.com/gauss-project/aurorafs/pkg/retrieval"
+	rpb "github.com/gauss-project/aurorafs/pkg/retrieval/pb"
 	"github.com/gauss-project/aurorafs/pkg/routetab"
 	"github.com/gauss-project/aurorafs/pkg/rpc"
 	"github.com/gauss-project/aurorafs/pkg/sctx"
@@ -544,6 +545,98 @@ func (n *Node) AskChunkInfo(root boson.Address) error {
 		return nil
 	}
 	return errors.New("nodelite: no chunk info answer")
+}
+
+// ServeToPeer makes the peer P ask THIS node for one chunk of the file root, with this node as
+// target: the request P's retrieval service sends (pb.RequestChunk over the "retrieval" stream), opened
+// on P's streamer and answered by this node's real retrieval handler — local Get(ModeGetRequest),
+// delivery, accounting debit, then chunkinfo.OnChunkTransferred(cid, root, P, self), which creates /
+// updates the availability record this node keeps for P (memory + `chunk-<root>-<P>` in the state store).
+// The delivered bytes are returned; the call returns after the handler has finished.
+func (n *Node) ServeToPeer(root, addr boson.Address) ([]byte, error) {
+	if n.peer == nil {
+		return nil, errNoPeer
+	}
+	ms, ok := n.peer.Str.get().(*memStreamer)
+	if !ok {
+		return nil, errNoPeer
+	}
+	ctx, cancel := context.WithTimeout(context.Background(), 5*time.Second)
+	defer cancel()
+	st, err := ms.NewStream(ctx, n.Addr, nil, "retrieval", "1.0.0", "retrieval")
+	if err != nil {
+		return nil, err
+	}
+	w, r := protobuf.NewWriterAndReader(st)
+	if err := w.WriteMsgWithContext(ctx, &rpb.RequestChunk{TargetAddr: n.Addr.Bytes(), RootAddr: root.Bytes(), ChunkAddr: addr.Bytes()}); err != nil {
+		_ = st.Reset()
+		return nil, err
+	}
+	var d rpb.Delivery
+	rerr := r.ReadMsgWithContext(ctx, &d)
+	_ = st.Close()
+	ms.Wait() // the handler reports the transfer to chunkinfo AFTER the delivery was written
+	if rerr != nil {
+		return nil, rerr
+	}
+	return d.Data, nil
+}
+
+// raceCI is the chunkinfo.Interface handed to the localstore during a scripted collection run: it
+// passes everything on to the real ChunkInfo and watches the DelFile calls of the FIRST run: if they are
+// for exactly the roots in expect, in that order, the hook runs inside the last of these calls, before it
+// is forwarded.  With one root that is the first DelFile call of the collection: collectGarbage has
+// selected its candidates and is about to evict this one — it has entered DelFile but the deletion
+// callback (which takes batchMu and re-checks the dirty addresses) has not run yet — so whatever the hook
+// does is an access racing with the eviction of exactly this candidate.  With two roots the hook runs in
+// the window of the second candidate, i.e. AFTER the callback of the first one has decided that file's
+// deletions and BEFORE the run commits its batch.
+type raceCI struct {
+	chunkinfo.Interface
+	expect []boson.Address
+	hook   func()
+	seen   int
+	armed  bool
+	fired  bool
+}
+
+func (r *raceCI) DelFile(root boson.Address, del func() error) error {
+	if r.armed {
+		if r.seen < len(r.expect) && root.Equal(r.expect[r.seen]) {
+			r.seen++
+			if r.seen == len(r.expect) {
+				r.armed, r.fired = false, true
+				r.hook()
+			}
+		} else {
+			r.armed = false
+		}
+	}
+	return r.Interface.DelFile(root, del)
+}
+
+// CollectGarbageRace is CollectGarbage with a scripted racing access: if the first len(expect) DelFile
+// calls of the first run are for expect, hook is executed (on the collecting goroutine, no lock held)
+// inside the last of them before it is forwarded.  fired tells whether that happened.
+func (n *Node) CollectGarbageRace(capacity uint64, expect []boson.Address, hook func()) (runs int, collected uint64, fired bool, err error) {
+	w := &raceCI{Interface: n.CI, expect: expect, hook: hook, armed: len(expect) > 0}
+	n.DB.SetChunkInfo(w)
+	defer n.DB.SetChunkInfo(n.CI)
+	n.DB.VerifSetCapacity(capacity)
+	for runs < 8 {
+		c, done, e := n.DB.VerifCollectGarbage()
+		w.armed = false // only the first run is scripted
+		runs++
+		collected += c
+		if e != nil {
+			return runs, collected, w.fired, e
+		}
+		if done {
+			break
+		}
+	}
+	n.DB.VerifTakeGCTrigger()
+	return runs, collected, w.fired, nil
 }
 
 // CollectGarbage sets the capacity and runs collection synchronously until a run reports done
